@@ -1094,7 +1094,9 @@ class Vector():
 	def max(self):
 		if self.ndims() == 2:
 			return self.copy((c.max() for c in self.cols()), name=None).T
-		return max(self)
+		# Exclude None values from max
+		non_none = [v for v in self._underlying if v is not None]
+		return max(non_none) if non_none else None
 
 	def min(self):
 		if self.ndims() == 2:
